@@ -1,2 +1,12 @@
 import ZbossModel.Props.C04
-#print axioms Zboss.Codec.C04_placeholder
+#print axioms Zboss.Codec.C04_layout
+#print axioms Zboss.Codec.C04_refusal
+#print axioms Zboss.Codec.C04_uint_range
+#print axioms Zboss.Codec.C04_sint_range
+#print axioms Zboss.Codec.assignOk_of_mkOk
+#print axioms Zboss.Codec.C04_roundtrip
+#print axioms Zboss.Codec.C04_table_ok
+#print axioms Zboss.Codec.C04_all_classes
+#print axioms Zboss.Codec.C04_canon_id
+#print axioms Zboss.Codec.C04_one_ambiguous_class
+#print axioms Zboss.Codec.C04_ambiguous_encoding
